@@ -124,6 +124,13 @@ pub struct Doc {
     /// lines between them)
     #[serde(default)]
     pub compact: bool,
+    /// Markdown: blank lines inside the front-matter (they count for line numbers)
+    #[serde(default)]
+    pub loose_front_matter: bool,
+    /// Markdown: the opening fence lines end in a blank (editors leave them; CommonMark strips
+    /// the info string)
+    #[serde(default)]
+    pub fence_trailing_space: bool,
 }
 
 fn yes() -> bool {
